@@ -88,7 +88,7 @@ pub fn anchor() -> SweepProfile {
 
 /// Nested quantifiers over nullable bodies with few constructors and deeper sizes (termination).
 pub fn loops() -> SweepProfile {
-    let unary = vec![Unary::Group, q(0, None, true), q(1, None, true), q(0, Some(1), true), q(2, Some(2), true), q(0, None, false), q(1, None, false), q(0, Some(3), true)];
+    let unary = vec![Unary::Group, q(0, None, true), q(1, None, true), q(0, Some(1), true), q(2, Some(2), true), q(0, None, false), q(1, None, false), q(0, Some(3), true), q(0, Some(1), false), q(1, Some(2), false)];
     SweepProfile {
         profile: Profile { name: "P-loops", leaves: vec![ch('a'), Node::Empty, ch('b')], unary, cat: true, alt: true, max_quant_nest: 3 },
         flags: vec![fl("")],
